@@ -43,8 +43,12 @@ def jobs(tier):
         add(key, (2, 2), (0, 0), 180, 20)
         if tier == 'thorough':
             for W in H.weak_orders(4):
+                if key == 'btf' and W in ((0, 0, 0, 0), (1, 0, 2, 1), (1, 2, 0, 1)):
+                    continue   # stayed `unknown` at 200 s on the clean tree in two end-to-end runs: not registered (DESIGN 11)
                 add(key, (1, 1, 1, 1), W, 600, 60)
             for W in [(0, 1, 2), (1, 0, 1), (0, 0, 0), (2, 1, 0)]:
+                if key == 'btf':
+                    continue   # BT-full (1,2,1): `unknown` at 200 s, not registered
                 add(key, (1, 2, 1), W, 600, 120)
     if tier == 'thorough':
         add('pl', (1, 1, 1, 1, 1), (0, 1, 2, 3, 4), 900, 300)
@@ -54,8 +58,8 @@ def jobs(tier):
             add(key, (1, 1), W, 400, 100 if W[0] == W[1] else 10)
         add(key, (2, 1), (0, 1), 600, 120)
         add(key, (2, 1), (1, 0), 600, 120)
-        if tier == 'thorough':
-            add(key, (2, 1), (0, 0), 1500, 600)
+        if tier == 'thorough' and key == 'tmf':
+            add(key, (2, 1), (0, 0), 1500, 600)   # TM-part (2,1) tie: 2 of 9 paths `unknown`, not registered
     # Thurstone-Mosteller with three teams (the pair constant c_iq differs from the game constant c only from 3 teams on)
     add('tmp', (1, 1, 1), (0, 1, 2), 900, 200)
     add('tmp', (1, 1, 1), (2, 0, 1), 900, 200)
